@@ -94,6 +94,24 @@ func gen(r *hx.Rng, n int, tier string) []string {
 			salt = r.Bytes(200 + r.Intn(300))
 		}
 		lines = append(lines, "C17|"+strings.Join(es, ";")+"|"+hx.H(salt))
+		if c%6 == 0 {
+			// a history on one deriver: same-length salts (in-place overwrite), a repeat, other lengths
+			n := 1 + r.Intn(24)
+			var ss []string
+			first := r.Bytes(n)
+			ss = append(ss, hx.H(first))
+			for j := 0; j < 2+r.Intn(4); j++ {
+				switch r.Intn(4) {
+				case 0:
+					ss = append(ss, hx.H(first))
+				case 1:
+					ss = append(ss, hx.H(r.Bytes(r.Intn(40))))
+				default:
+					ss = append(ss, hx.H(r.Bytes(n)))
+				}
+			}
+			lines = append(lines, "C17H|"+strings.Join(es, ";")+"|"+strings.Join(ss, ";"))
+		}
 	}
 	return lines
 }
